@@ -13,6 +13,7 @@ V: per curve: (r, s) class products (valid, 0, negative, N, +N, N-1, 1, huge,
    Trace_SigForks requires fork = crypto/ecdsa everywhere, rejection when the
    structure says so, acceptance of valid ones, fail-closed entropy outcomes."""
 import vlib
+from checks import ages_common as ag
 from checks import verdicts_common as vc
 from checks import sigforks_common as sc
 
@@ -22,7 +23,9 @@ def run(ctx):
     ctx.model_check("MC_DER", ctx.pick("MC_DER.cfg", "MC_DER_thorough.cfg"), workers=8)
     n, cases, kinds = sc.run(ctx, "ecdsa")
     vn, vcases, vdepth = vc.run(ctx, ['ecdsa'])   # Verdicts.tla: every history of presentations on one long-lived object
+    an, acases = ag.run(ctx, ['ecdsa'])   # Ages.tla: every schedule of phases on one long-lived object, each phase scaled to n operations
     return ctx.finish({
+        **ag.coverage(an, acases),
         "traces_validated_against_impl": n,
         "evaluations": len(cases),
         "distinct_nontrivial": len({vlib.json.dumps(c, sort_keys=True) for c in cases}),
@@ -40,6 +43,8 @@ def run(ctx):
 
 
 def replay(ctx, path):
+    if vlib.json.load(open(path)).get("family") == "ages":
+        return ag.replay(ctx, path)
     if vlib.json.load(open(path)).get("family") == "verdicts":
         return vc.replay(ctx, path)
     return ctx.replay_case(path, "sigforks", "Trace_SigForks")
